@@ -329,7 +329,15 @@ where
                     let span = if spans.is_empty() {
                         Span::new(0, 0)
                     } else if pop_idx - 1 < spans.len() {
-                        Span::new(spans[pop_idx - 1].start(), spans[spans.len() - 1].end())
+                        // The span starts at the first lexeme the production derived: leading
+                        // symbols that derived nothing (zero-length spans placed at the end of
+                        // whatever came before them) are skipped.
+                        let end = spans[spans.len() - 1].end();
+                        let start = spans[pop_idx - 1..]
+                            .iter()
+                            .find(|s| !s.is_empty())
+                            .map_or(end, |s| s.start());
+                        Span::new(start, end)
                     } else {
                         // An empty production derives no lexemes: it gets a zero-length span
                         // positioned where the previous symbol ended.
@@ -443,10 +451,14 @@ where
                             let span = if spans_uw.is_empty() {
                                 Span::new(0, 0)
                             } else if pop_idx - 1 < spans_uw.len() {
-                                Span::new(
-                                    spans_uw[pop_idx - 1].start(),
-                                    spans_uw[spans_uw.len() - 1].end(),
-                                )
+                                // See the comment in `lr`: leading symbols that derived
+                                // nothing are skipped.
+                                let end = spans_uw[spans_uw.len() - 1].end();
+                                let start = spans_uw[pop_idx - 1..]
+                                    .iter()
+                                    .find(|s| !s.is_empty())
+                                    .map_or(end, |s| s.start());
+                                Span::new(start, end)
                             } else {
                                 // An empty production derives no lexemes: it gets a
                                 // zero-length span positioned where the previous symbol ended.
